@@ -130,12 +130,48 @@ Fixpoint caller_okb (w : iw) (ops : list (op N)) : bool :=
   | o :: r => op_caller_okb w o && caller_okb (fst (step N iblob ienc idec w o)) r
   end.
 
+(** per-wallet part of a multi-wallet observation *)
+Record wobs := WO { o_tracker : ghost N; o_npre : nat; o_npost : nat; o_pre : view; o_post : view;
+                    o_fprm : scrypt; o_file : list meta }.
+
+Definition wallet_ok (pwds addrs labels olabels : list string) (wg : iw * ghost N) (o : wobs) : bool :=
+  let (w, g) := wg in
+  ghost_eqb addrs g (o_tracker o) && ghost_eqb addrs (o_tracker o) g &&
+  view_eqb (view_of w (o_npre o) pwds addrs labels olabels) (o_pre o) &&
+  view_eqb (view_of (reload iblob w) (o_npost o) pwds addrs labels olabels) (o_post o) &&
+  scrypt_eqb (fst (save iblob w)) (o_fprm o) &&
+  list_eqb meta_eqb (map meta_of (snd (save iblob w))) (o_file o).
+
+Fixpoint all2 {A B} (f : A -> B -> bool) (a : list A) (b : list B) : bool :=
+  match a, b with
+  | [], [] => true
+  | x :: r, y :: s => f x y && all2 f r s
+  | _, _ => false
+  end.
+
+Definition Open := MOpen N.
+Definition On := MOp N.
+
+Fixpoint mcaller_okb (s : system N iblob) (ms : list (mop N)) : bool :=
+  match ms with
+  | [] => true
+  | m :: r =>
+    (match m with
+     | MOp _ i o => match nth_error s i with Some (w, _) => op_caller_okb w o | None => true end
+     | MOpen _ _ => true
+     end) && mcaller_okb (fst (mstep N iblob ienc idec s m)) r
+  end.
+
 Inductive case :=
 | CHist (prm : scrypt) (ops : list (op N)) (results : list rs)
         (tracker : ghost N) (obliged : bool)
         (pwds addrs labels olabels : list string)
         (n_pre n_post : nat) (pre post : view)
-        (file_prm : scrypt) (file : list meta).
+        (file_prm : scrypt) (file : list meta)
+(** several wallets in one process: the interleaved operations, their outcomes, and for each open
+    wallet what CHist records for one *)
+| CMulti (mops : list (mop N)) (results : list rs) (obliged : bool)
+         (pwds addrs labels olabels : list string) (obs : list wobs).
 
 Definition case_ok (c : case) : bool :=
   match c with
@@ -149,6 +185,11 @@ Definition case_ok (c : case) : bool :=
     (* the JSON file is [save w] *)
     scrypt_eqb (fst (save iblob w)) file_prm &&
     list_eqb meta_eqb (map meta_of (snd (save iblob w))) file
+  | CMulti mops results obliged pwds addrs labels olabels obs =>
+    let (s, rs') := mrun N iblob ienc idec [] mops in
+    list_eqb res_eqb rs' results &&
+    Bool.eqb (mcaller_okb [] mops) obliged &&
+    all2 (wallet_ok pwds addrs labels olabels) s obs
   end.
 
 Definition mismatches := mism case_ok.
